@@ -262,6 +262,60 @@ def driver_twins(chk, scheme, event, max_steps, budget):
     chk.note('driver twins %s: %d product paths' % (tag, st['paths']))
 
 
+def refine_twins(chk):
+    """(2) the in-step refinement of the Hamiltonian DOP853 path carries its own copy of the dense-output construction (extra stages
+    13..15 and the interpolation table): on symbolic step data, stages and field, the table handed to the dense evaluator must be the
+    one the generic refinement hands over."""
+    import hiten.algorithms.integrators.rk as rk
+    chk.encode(rk._dop853_refine_in_step, rk._dop853_refine_in_step_ham, rk._dop853_build_dense_cache)
+    dim = 1
+    t0, h = W.var('t0'), W.var('h')
+    y0, y1 = np.array([W.var('ya')]), np.array([W.var('yb')])
+    s_used = rk._DOP853._B_HIGH.size + 1
+    Kseg = np.array([[W.var('K%d' % r)] for r in range(s_used)])
+    F = lambda yv: np.array([opaque('F', *[Sym.lift(v) for v in np.asarray(yv).reshape(-1)])])
+    f0, f1 = F(y0), F(y1)
+
+    class Got(Exception):
+        pass
+    seen = {}
+
+    def eval_dense(y_old, F_cache, power, x):
+        seen['F'] = np.array(F_cache).copy()
+        seen['y'] = np.array(y_old).copy()
+        raise Got()
+    saved = (rk._dop853_eval_dense, rk._hamiltonian_rhs)
+    rk._dop853_eval_dense = eval_dense
+    rk._hamiltonian_rhs = lambda yv, j, c, n: F(yv)
+    ex = Explorer(generic_nonzero=True)
+    out = {}
+    try:
+        with explore.activate(ex):
+            ex.assume(h > 0)
+            common = dict(t0=t0, y0=y0, f0=f0, t1=t0 + h, y1=y1, f1=f1, h=h, Kseg=Kseg, A_full=rk.DOP853_A, C_full=rk.DOP853_C, D=rk.DOP853_D, n_stages_extended=rk.DOP853_N_STAGES_EXTENDED,
+                          interpolator_power=rk.DOP853_INTERPOLATOR_POWER, direction=0, xtol=W.var('xtol'), gtol=W.var('gtol'))
+            g = lambda t, y: opaque('G', Sym.lift(t), *[Sym.lift(v) for v in y])
+            for name, call in (('generic', lambda: rk._dop853_refine_in_step(f=lambda t, y: F(y), event_fn=g, **common)),
+                               ('hamiltonian', lambda: rk._dop853_refine_in_step_ham(event_fn=g, jac_H=None, clmo_H=None, n_dof=1, **common))):
+                seen.clear()
+                try:
+                    call()
+                except Got:
+                    pass
+                out[name] = (seen.get('F'), seen.get('y'))
+    finally:
+        rk._dop853_eval_dense, rk._hamiltonian_rhs = saved
+    chk.absorb(ex)
+    a, b = out.get('generic'), out.get('hamiltonian')
+    ok = a is not None and b is not None and a[0] is not None and b[0] is not None and np.asarray(a[0]).shape == np.asarray(b[0]).shape and same(a[0], b[0]) and same(a[1], b[1])
+    rows = [] if ok or a is None or b is None or a[0] is None or b[0] is None or np.asarray(a[0]).shape != np.asarray(b[0]).shape else [r for r in range(np.asarray(a[0]).shape[0]) if not same(a[0][r], b[0][r])]
+    oid = 'C17/(2)refine-twin/dop853 dense table'
+    if ok:
+        chk.ok(oid, 'identical %dx%d interpolation tables (symbolic step, 13 symbolic stages, uninterpreted field) from the generic and the Hamiltonian in-step refinement' % np.asarray(a[0]).shape)
+    else:
+        chk.fail(oid, 'the Hamiltonian in-step refinement builds a different interpolation table than the generic one (rows %s)' % rows, _replay_twins())
+
+
 def _replay_twins():
     """Compiled build: a non-separable polynomial Hamiltonian integrated once as a Hamiltonian system (fast paths) and once as a
     generic right-hand-side system built from the same field, for every scheme, with and without events, forward and backward."""
@@ -379,6 +433,7 @@ def main():
             # in the quick tier, two in the thorough tier.  A divergence that needs a second accepted DOP853 step (e.g. a stale derivative
             # handed to the in-step refinement) is therefore outside the quick bound here; the refinement-argument contract of C11 covers it.
             driver_twins(chk, scheme, event, (2 if thorough else 1) if scheme == 'dop853' else ms, 2400 if thorough else 400)
+    refine_twins(chk)
     dispatch(chk)
     return chk.finish()
 
